@@ -148,7 +148,8 @@ __CPROVER_ensures(timer == NULL ==> (TM_FDT_SAME && XV_SAME(xv_errno)))
 ;
 
 /* ---- timer_mgr_schedule ---------------------------------------------------------------------------------------------- */
-#define TMS_REL(r) ((r) < 0 ? 0 : (r))
+/* (timeouts beyond MAX_RELATIVE_MTIMER = 1e12 s are cut there: the expiry must fit a struct timespec; fix a5845f2) */
+#define TMS_REL(r) ((r) < 0 ? 0 : (r) > 1e12 ? 1e12 : (r))
 int64_t timer_mgr_schedule(struct timer_mgr *timer, double relative_mtimer)
 __CPROVER_requires(timer != NULL && TM_ENTRY(timer))
 __CPROVER_requires(TM_GHOST_RANGES)
@@ -402,6 +403,7 @@ __CPROVER_requires(__CPROVER_is_fresh(arg, sizeof(struct xcm_dns_query)))
 __CPROVER_requires(__CPROVER_rw_ok(XQC(arg), sizeof(struct xcm_dns_query)))
 #endif
 /* TRUSTED(c-ares) A1: no ARES_ENOMEM; A2: exactly one callback, so a status other than "cancelled/destroyed" finds the query in progress */
+__CPROVER_requires(status != ARES_ENOTIMP /* env A5 */ && (status == ARES_SUCCESS ==> xv_ar.cb_nodes >= 1) /* env A6 */ && Q_OK(XQC(arg)) /* representation invariant on entry */)
 __CPROVER_requires(status != ARES_ENOMEM && Q_STATE_OK(XQC(arg)) && (!XQ_CB_IGNORED(status) ==> XQC(arg)->state == query_state_in_progress))
 __CPROVER_requires(status == ARES_SUCCESS ==> (result != NULL && xv_ar.cb_nodes >= 0 && xv_ar.cb_nodes <= XV_NODES_MAX && xv_ar.results > 0 && xv_ar.results <= XV_TD_CNT_MAX && XV_TD_UCNT_OK(xv_ar.free_n)))
 __CPROVER_assigns(XQC(arg)->state, XQC(arg)->ips_len, __CPROVER_object_upto(XQC(arg)->ips, sizeof(XQC(arg)->ips)), xv_ar.free_n, xv_ar.results)
@@ -588,7 +590,7 @@ __CPROVER_ensures(__CPROVER_return_value != NULL ==> ((__CPROVER_return_value->o
                   __CPROVER_return_value->overall_timer_id >= 0))
 __CPROVER_ensures(__CPROVER_return_value != NULL ==> (xv_ar.inits == __CPROVER_old(xv_ar.inits) + 1 && xv_ar.optmask == (ARES_OPT_TIMEOUTMS | ARES_OPT_TRIES) && xv_ar.timeout_ms == 1000))
 /* (one try per second of the overall timeout, plus one: the sum is rounded to double BEFORE it is truncated) */
-__CPROVER_ensures(__CPROVER_return_value != NULL ==> xv_ar.tries == (int)(XQ_EFF_TIMEOUT(timeout) / 1 + 1))
+__CPROVER_ensures(__CPROVER_return_value != NULL ==> xv_ar.tries == ((XQ_EFF_TIMEOUT(timeout) / 1 + 1) < INT_MAX ? (int)(XQ_EFF_TIMEOUT(timeout) / 1 + 1) : INT_MAX))
 /* PO[C13] xcm_dns_resolve.lookup_started_once: one ares_getaddrinfo whose callback argument is the query; the query is in progress, or c-ares has answered at once */
 __CPROVER_ensures(__CPROVER_return_value != NULL ==> (xv_ar.gai_n == __CPROVER_old(xv_ar.gai_n) + 1 && xv_ar.arg == (void *)__CPROVER_return_value && \
                   (!xv_ar.pending == (xv_ar.cb_n != __CPROVER_old(xv_ar.cb_n))) && (xv_ar.pending ==> __CPROVER_return_value->state == query_state_in_progress) && \
